@@ -262,7 +262,7 @@ def compare(case, res, inputs, check_extent=True):
 # ------------------------------------------------------------------------------------------ G1: plain
 
 RANK_POOLS = [["K", "J", "I", "M", "N", "P"], ["K", "J", "H", "M", "N", "P"], ["I", "PI", "K", "M", "N", "J"],
-              ["X", "Y", "R", "U", "V", "W"], ["K", "KI", "J", "M", "MI", "N"]]
+              ["X", "Y", "R", "U", "V", "W"], ["K", "KI", "J", "M", "MI", "N"], ["M1", "M0", "M2", "K1", "K2", "J"], ["M1", "M0", "M2", "M3", "M4", "M5"]]
 TNAMES = list("ABCDEFGHQRSTUVWXY")
 
 
@@ -451,9 +451,44 @@ def g3y(rng):
                 ext={M: rng.randint(1, 3), N: rng.randint(1, 3), K: rng.randint(1, 6), J: rng.randint(1, 3)}, env={}, tags=["g3y"])
 
 
-def g3(rng):
+def g3z(rng):
+    """Z[m,n] = A[k,m] * B[k,n]: an output rank split dynamically into >= 3 levels (an intermediate M1I exists) and a
+    second, independently partitioned rank after it (and optionally the contracted rank)"""
+    K, M, N = rng.choice([("K", "M", "N"), ("J", "I", "P")])
+    decl = {"A": [K, M], "B": [K, N], "Z": [M, N]}
+    if rng.random() < 0.3:
+        decl["Z"] = [N, M]
+    e = dict(out="Z", oidx=[V(x) for x in decl["Z"]], terms=[dict(kind="times", factors=[("t", "A", [V(K), V(M)]), ("t", "B", [V(K), V(N)])], sel=None)])
+    s0 = rng.randint(1, 3)
+    s1 = s0 * rng.randint(1, 3)
+    first = rng.choice(["occ", "occ", "shape"])
+    parts = {M: [("uniform_occupancy(A.%d)" % s1) if first == "occ" else ("uniform_shape(%d)" % rng.randint(2, 5)), "uniform_occupancy(A.%d)" % s0]}
+    second = rng.choice(["shape", "shape", "occ", "occ2", "nway"])
+    if second == "shape":
+        parts[N] = ["uniform_shape(%d)" % rng.randint(1, 4)]
+    elif second == "nway":
+        parts[N] = ["nway_shape(%d)" % rng.randint(1, 3)]
+    elif second == "occ":
+        parts[N] = ["uniform_occupancy(B.%d)" % rng.randint(1, 3)]
+    else:
+        t0 = rng.randint(1, 2)
+        parts[N] = ["uniform_occupancy(B.%d)" % (t0 * rng.randint(1, 3)), "uniform_occupancy(B.%d)" % t0]
+    if rng.random() < 0.3:
+        parts[K] = ["uniform_shape(%d)" % rng.randint(1, 4)]
+    mapping = {"partitioning": {"Z": parts}}
+    if rng.random() < 0.5:
+        def lv(r):
+            n = len(parts.get(r, []))
+            return [r + str(i) for i in range(n, -1, -1)] if n else [r]
+        order = [M, N, K]
+        rng.shuffle(order)
+        mapping["loop-order"] = {"Z": [x for r in order for x in lv(r)]}
+    return dict(decl=decl, eins=[e], mapping=mapping, ext={K: rng.randint(1, 5), M: rng.randint(1, 7), N: rng.randint(1, 6)}, env={}, tags=["g3z", first, second])
+
+
+def g3(rng, variant=None):
     """product Einsums Z[m,n] = A[k,m] * B[k,n] (and variants) with uniform_occupancy / flatten"""
-    variant = rng.choice(["occ", "occ", "occ_under_shape", "occ2", "flatten", "flatten_occ", "occ_out"])
+    variant = variant or rng.choice(["occ", "occ", "occ_under_shape", "occ2", "flatten", "flatten_occ", "occ_out"])
     K, M, N = rng.choice([("K", "M", "N"), ("J", "I", "P"), ("K", "I", "PI")])
     k, m, n = K.lower(), M.lower(), N.lower()
     shape = rng.choice(["mm", "mm", "mv", "dot3"])
@@ -481,7 +516,7 @@ def g3(rng):
         exp = [r for r in ranks if r != K] + [K + "1", K + "0"]
     elif variant == "occ2":
         s2 = sz * rng.randint(1, 3)
-        leader2 = rng.choice(holders)
+        leader2 = rng.choice([h for h in holders if h != leader] * 2 + [leader])
         parts[K] = ["uniform_occupancy(%s.%d)" % (leader, s2), "uniform_occupancy(%s.%d)" % (leader2, sz)]
         if leader2 != leader:
             tags.append("different_leaders")
@@ -545,6 +580,11 @@ def g4(rng):
         decl = {"I": [W], "F": [S], "O": [Q]}
         e = dict(out="O", oidx=[V(Q)], terms=[dict(kind="times", factors=[("t", "I", [widx]), ("t", "F", [V(S)])], sel=None)])
         ext = {Q: Qx, S: Sx, W: Wx}
+        if rng.random() < 0.5:
+            # an operand indexed directly by the output rank sits un-projected next to the projected input
+            decl["G"] = [Q]
+            e["terms"][0]["factors"].append(("t", "G", [V(Q)]))
+            tags.append("mask")
     case = dict(decl=decl, eins=[e], mapping={}, ext=ext, env={}, tags=tags)
     mode = rng.choice(["none", "none", "p1", "p1", "p2"])
     pre = ["C"] if extra else []
@@ -645,6 +685,81 @@ def g7conv(rng):
 
 
 # ------------------------------------------------------------------------------------------ G5: cascades
+
+def g5conv(rng):
+    """cascade whose first Einsum uses index math and whose second re-uses the index names plainly"""
+    Qx, Sx = rng.randint(1, 5), rng.randint(1, 3)
+    Wx = Qx + Sx - 1
+    e1 = dict(out="T", oidx=[V("Q")], terms=[dict(kind="times", factors=[("t", "I", [[(1, "q"), (1, "s")]]), ("t", "F", [V("S")])], sel=None)])
+    second = rng.choice(["wq", "ws", "q"])
+    if second == "wq":
+        decl2, e2 = {"Z": ["W", "Q"]}, dict(out="Z", oidx=[V("W"), V("Q")], terms=[dict(kind="times", factors=[("t", "I", [V("W")]), ("t", "T", [V("Q")])], sel=None)])
+    elif second == "ws":
+        decl2, e2 = {"Z": ["W", "S"]}, dict(out="Z", oidx=[V("W"), V("S")], terms=[dict(kind="times", factors=[("t", "I", [V("W")]), ("t", "F", [V("S")])], sel=None)])
+    else:
+        decl2, e2 = {"Z": ["Q"]}, dict(out="Z", oidx=[V("Q")], terms=[dict(kind="times", factors=[("t", "T", [V("Q")])], sel=None)])
+    decl = {"I": ["W"], "F": ["S"], "T": ["Q"]}
+    decl.update(decl2)
+    mapping = {}
+    r = rng.choice(decl2["Z"])
+    opt = rng.choice(["shape", "occ", "flatten", "none"])
+    if opt == "shape":
+        mapping["partitioning"] = {"Z": {r: ["uniform_shape(%d)" % rng.randint(1, 4)]}}
+    elif opt == "occ" and second != "q":
+        lead = "I" if r == "W" else ("T" if r == "Q" else "F")
+        mapping["partitioning"] = {"Z": {r: ["uniform_occupancy(%s.%d)" % (lead, rng.randint(1, 3))]}}
+    return dict(decl=decl, eins=[e1, e2], mapping=mapping, ext={"Q": Qx, "S": Sx, "W": Wx}, env={}, tags=["g5conv", second, opt])
+
+
+def g4c(rng):
+    """convolution where the *input* rank is partitioned and the output rank follows it (fractional coefficient)"""
+    a = rng.choice([1, 2, 2, 4])
+    Qx, Sx = rng.randint(1, 6), rng.randint(1, 3)
+    Wx = a * (Qx - 1) + (Sx - 1) + 1
+    fs = [("t", "I", [[(a, "q"), (1, "s")]]), ("t", "F", [V("S")]), ("t", "G", [V("Q")])]
+    e = dict(out="Z", oidx=[V("S")], terms=[dict(kind="times", factors=fs, sel=None)])
+    case = dict(decl={"I": ["W"], "F": ["S"], "G": ["Q"], "Z": ["S"]}, eins=[e], ext={"Q": Qx, "S": Sx, "W": Wx}, env={}, tags=["g4c", "conv", "a%d" % a, "b1", "part1"],
+                mapping={"partitioning": {"Z": {"W": [rng.choice(["nway_shape(%d)" % rng.randint(1, 4), "uniform_shape(%d)" % rng.randint(1, 6)])], "Q": ["follow(W)"]}},
+                         "loop-order": {"Z": rng.choice([["S", "W1", "W0"], ["W1", "S", "W0"], ["W1", "W0", "S"]])}})
+    return case
+
+
+def g7lf(rng, **opts):
+    """metrics specifications: a cascade over the same inputs in which one intersector is bound to the same rank in every
+    Einsum, with the leader (always the Einsum's first factor) differing from Einsum to Einsum"""
+    nin = rng.choice([2, 2, 3])
+    ins = ["A", "B", "C"][:nin]
+    n = rng.randint(2, 3)
+    two = rng.random() < 0.4            # rank order [M, K] or [K, M]
+    iranks = ["M", "K"] if not two else ["K", "M"]
+    decl = {t: list(iranks) for t in ins}
+    eins, outs = [], []
+    ty = rng.choice(["leader-follower", "leader-follower", "two-finger", "skip-ahead"])
+    bindings, loop, st = {}, {}, {}
+    for i in range(n):
+        out = "T%d" % i if i < n - 1 else "Z"
+        decl[out] = ["M"]
+        fs = ins[:]
+        rng.shuffle(fs)
+        if ty != "leader-follower":
+            fs = fs[:2]
+        factors = [("t", t, [V(r) for r in iranks]) for t in fs]
+        if outs and rng.random() < 0.5:
+            factors.append(("t", outs[-1], [V("M")]))
+        eins.append(dict(out=out, oidx=[V("M")], terms=[dict(kind="times", factors=factors, sel=None)]))
+        outs.append(out)
+        loop[out] = list(iranks)
+        st[out] = {"space": [], "time": list(iranks)}
+        b = {"rank": "K"}
+        if ty == "leader-follower":
+            b["leader"] = fs[0]
+        bindings[out] = [{"config": "accel", "prefix": "tmp/" + out}, {"component": "IS", "bindings": [b]}]
+    arch = {"accel": [{"name": "level0", "attributes": {"clock_frequency": 10 ** 9},
+                       "local": [{"name": "IS", "class": "Intersector", "attributes": {"type": ty}}]}]}
+    fmt = {"Z": {"default": {"rank-order": ["M"], "M": {"format": "C", "pbits": 64}}}}
+    return dict(decl=decl, eins=eins, mapping={"loop-order": loop, "spacetime": st}, architecture=arch, bindings=bindings, format=fmt,
+                ext={"M": rng.randint(1, 4), "K": rng.randint(1, 5)}, env={}, tags=["g7lf", ty, "n%d" % n])
+
 
 def g5(rng):
     """cascade of 2-4 Einsums; later Einsums read earlier results"""
